@@ -10,7 +10,8 @@
    210 : createOrUpdatePodGroup call law
    201 : exact-pod-set law on one observed sync step      202/207 : idempotence (pods / counters)
    203 : crash/restart convergence                         204 : pod markers
-   205 : PodGroup mirrors spec                             206 : minResources admissible *)
+   205 : PodGroup mirrors spec                             206 : minResources admissible
+   212 : minResources with ties visited in spec order (fewer than 12 tasks) *)
 From Coq Require Import ZArith List Bool.
 From V Require Import Base.Codec C05.Model C05.JobCodec C05.Laws C06.Model C06.Laws.
 Import ListNotations.
@@ -98,5 +99,7 @@ Definition entry (sel : Z) (toks : list Z) : list Z :=
            | Some ((sp, xs), jp, lf, err, gb, ga) => eBool (law_pg_call sp xs jp lf err gb ga) | None => bad_input end
   | 206 => match run_dec (let* sx := dSpecX in let* r := dRes3 in ret (sx, r)) toks with
            | Some ((sp, xs), r) => eBool (law_minres sp xs r) | None => bad_input end
+  | 212 => match run_dec (let* sx := dSpecX in let* r := dRes3 in ret (sx, r)) toks with
+           | Some ((sp, xs), r) => eBool (law_minres_stable sp xs r) | None => bad_input end
   | _ => bad_input
   end.
